@@ -33,6 +33,29 @@ def gen_c15c(tier: str, rng: random.Random) -> Iterator[Dict[str, Any]]:
                         steps.append({"s": "dt", "d": 0.01})
                     yield h2_script(steps, {"*": prog}, "c15c/h2/%d/%s/late=%s/big=%s" % (n, "".join(map(str, order)), late, big),
                                     maxchunk=40000)
+    # HTTP/2 reached by an h2c upgrade: the upgrade request itself (stream 1) is the request in progress - also
+    # with a further stream opened before / after the trigger, and with the keep-alive timeout run out meanwhile
+    for big in (False, True):
+        for second in ("none", "before", "after"):
+            prog = [["recv_body"], ["gate"]] + build.simple_resp_program(chunks=[30000, 40000] if big else [3, 4], read_first=False)
+            rq = {"rid": 1, "method": "GET", "target": "/up", "version": "1.1", "kind": "http", "upgrade": "h2c",
+                  "headers": [["Host", "hypercorn"], ["Connection", "Upgrade, HTTP2-Settings"], ["Upgrade", "h2c"],
+                              ["HTTP2-Settings", "AAMAAABkAAQAAP__"]]}
+            sc = base_script([rq], {"*": prog}, fam="c15c/h2c-upgrade/%s/big=%s" % (second, big))
+            sc["creqs"][0]["ver"] = "2"
+            sc["opening"] = "h2c"
+            sc["maxchunk"] = 40000
+            steps = [{"s": "send", "upto": stream_len(sc)}, {"s": "dt", "d": 0.05}]
+            if second == "before":
+                steps += [build.h2_headers(2, 3, "GET", toks=[["/s2", "/s2"]], scheme="http"), {"s": "dt", "d": 0.01}]
+            steps += [{"s": "shutdown"}, {"s": "dt", "d": 0.01}]
+            if second == "after":
+                steps += [build.h2_headers(2, 3, "GET", toks=[["/late", "/late"]], scheme="http"), {"s": "dt", "d": 0.01}]
+            steps += [{"s": "go", "app": "1", "n": 1}, {"s": "dt", "d": 0.01}]
+            if second == "before":
+                steps += [{"s": "go", "app": "2", "n": 1}, {"s": "dt", "d": 0.01}]
+            sc["steps"] = steps
+            yield sc
     # HTTP/2 idle connection (no stream, and after streams finished) at the trigger
     for history in ("fresh", "after-stream"):
         steps = []
